@@ -655,3 +655,91 @@ func VerifC07_V2ImportNoKeyInClear() {
 	verif.Assert(err == nil, "import")
 	verif.NoLeak("no-key-material-in-clear-after-import")
 }
+
+// ---- interleavings at lock granularity: another handle may run exactly when this one holds no lock ----
+
+type verifSchedBackend struct {
+	backendAPI.Backend
+	releases int    // lock releases seen so far
+	runAt    int    // after which release the other party runs (-1 = never)
+	other    func() // the other party's whole operation
+	ran      bool
+}
+
+func (b *verifSchedBackend) released() {
+	n := b.releases
+	b.releases++
+	if n == b.runAt && !b.ran {
+		b.ran = true
+		b.other()
+	}
+}
+
+func (b *verifSchedBackend) Unlock() error {
+	err := b.Backend.Unlock()
+	b.released()
+	return err
+}
+
+func (b *verifSchedBackend) RUnlock() error {
+	err := b.Backend.RUnlock()
+	b.released()
+	return err
+}
+
+func (b *verifSchedBackend) Close() error { return nil }
+
+// VerifC17_V2OpenNewRingInterleaved: two handles on one back end open the same not-yet-existing key ring for writing.
+// Handle A's whole operation (open, add a key, make it current) is placed before B's, after it, or at any point at
+// which B holds no lock. Whatever the placement, nothing A did successfully is lost: a fresh handle sees A's key with
+// its bytes, and B's key if B reported success.
+func VerifC17_V2OpenNewRingInterleaved() {
+	suite := verifSuite("")
+	mem := backend.NewInMemory()
+	ka := verif.Bytes("keyA", 32)
+	kb := verif.Bytes("keyB", 32)
+	verif.Assume(!verif.Eq(ka, kb))
+	var seqA int
+	var errA error
+	opA := func() {
+		a := verifOpen(&verifSchedBackend{Backend: mem, runAt: -1}, suite)
+		r, err := a.OpenKeyRingRW("client/x/storage-sym")
+		if err != nil {
+			errA = err
+			return
+		}
+		seqA, errA = r.AddKey(verifSymKey(ka))
+		if errA == nil {
+			errA = r.SetCurrent(seqA)
+		}
+	}
+	at := verif.Choose("A-runs-after-release", -1, 5) // -1: before B starts; 0..4: after B's k-th lock release; 5: after B
+	if at == -1 {
+		opA()
+	}
+	sb := &verifSchedBackend{Backend: mem, runAt: at, other: opA}
+	b := verifOpen(sb, suite)
+	var seqB int
+	rb, errB := b.OpenKeyRingRW("client/x/storage-sym")
+	if errB == nil {
+		seqB, errB = rb.AddKey(verifSymKey(kb))
+	}
+	if !sb.ran && at != -1 {
+		opA() // B released fewer locks than "at": A simply runs after B
+	}
+	verif.Reach("both-done")
+	verif.Assert(errA == nil, "A-succeeds")
+	fresh := verifOpen(&verifSchedBackend{Backend: mem, runAt: -1}, suite)
+	r, err := fresh.OpenKeyRing("client/x/storage-sym")
+	verif.Assert(err == nil, "ring-opens")
+	if err != nil || errA != nil {
+		return
+	}
+	got, err := r.SymmetricKey(seqA, api.ThemisSymmetricKeyFormat)
+	verif.Assert(err == nil && verif.Eq(got, ka), "key-added-by-A-present")
+	if errB == nil {
+		gotB, err := r.SymmetricKey(seqB, api.ThemisSymmetricKeyFormat)
+		verif.Assert(err == nil && verif.Eq(gotB, kb), "key-added-by-B-present")
+		verif.Assert(seqA != seqB, "distinct-sequence-numbers")
+	}
+}
